@@ -21,10 +21,11 @@ Inductive val :=
 | VJson (v : val)                (* json.dumps(v): a non-empty string *)
 | VTb (v : val)                  (* the formatted traceback of the exception v: a non-empty string *)
 | VText                          (* a non-empty string nothing depends on (f-string with a constant part, strftime) *)
+| VTime (aware : bool)           (* a datetime: aware (UTC: the only zone this code creates) or naive *)
 | VTuple (l : list val)
 | VObj (cls : string) (fs : list (string * val)).
 
-Inductive xkind := XAttr | XKey | XAssert | XType | XUnpack | XName | XFuel.
+Inductive xkind := XAttr | XKey | XAssert | XType | XUnpack | XName | XValue | XFuel.
 
 Inductive res (A : Type) := Ok (a : A) | Exn (k : xkind).
 Arguments Ok {A} a.
@@ -91,7 +92,9 @@ Fixpoint set_path (v : val) (path : list string) (x : val) : res val :=
 (** what is outside the translated code *)
 Record world := mkWorld {
   w_handle : val;        (* the RunningProcess that `await run_in_process(...)` returns *)
-  w_look : bool          (* the key looked up in a module-level dict is present *)
+  w_look : bool;         (* the key looked up in a module-level dict is present *)
+  w_hooks : bool         (* the implementations of an awaited hook get to run (false: the caller is
+                            cancelled while they are only scheduled -- apluggy gathers them as tasks) *)
 }.
 
 (** a frame's names, the plugin instances, the publications so far (oldest first) *)
@@ -262,7 +265,29 @@ Fixpoint eval (fuel : nat) (c : cfg) (e : exp) {struct fuel} : res (val * cfg) :
     | EJsonDumps e1 => p <- eval n c e1 ;; let '(v, c1) := p in Ok (VJson v, c1)
     | EFormatTb e1 => p <- eval n c e1 ;; let '(v, c1) := p in Ok (VTb v, c1)
     | EFmt parts => p <- eval_list (eval n) c parts ;; Ok (VText, snd p)
-    | ETotal _ args => p <- eval_list (eval n) c args ;; Ok (VOpaque 0, snd p)
+    | ETotal _ args => p <- eval_list (eval n) c args ;; Ok (VText, snd p)
+    | ENowUtc => Ok (VTime true, c)
+    | ENaive e1 =>
+        p <- eval n c e1 ;; let '(v, c1) := p in
+        match v with VTime _ => Ok (VTime false, c1) | _ => Exn XAttr end
+    | EIsUtc e1 =>
+        p <- eval n c e1 ;; let '(v, c1) := p in
+        match v with VTime a => Ok (VBool a, c1) | _ => Exn XAttr end
+    | EIsAware e1 =>
+        p <- eval n c e1 ;; let '(v, c1) := p in
+        match v with VTime a => Ok (VBool a, c1) | _ => Exn XAttr end
+    | ECallFn f args =>
+        p <- eval_list (eval n) c args ;; let '(vs, c1) := p in
+        match has_func P f with
+        | Some fd =>
+            match bind_names (f_args fd) vs [] with
+            | Some e0 =>
+                q <- exec_list (exec n) (set_env c1 e0) (f_body fd) ;; let '(fl, c2) := q in
+                Ok (match fl with FReturn v => v | FNormal => VNone end, set_env c2 (c_env c1))
+            | None => Exn XType
+            end
+        | None => Exn XName
+        end
     | EDictGet d k =>
         p <- eval n c k ;; let '(_, c1) := p in
         if w_look W then (if mem d (p_dict_values_truthy P) then Ok (VText, c1) else Exn XType)
@@ -326,13 +351,16 @@ with exec (fuel : nat) (c : cfg) (s : stmt) {struct fuel} : res (flow * cfg) :=
         p <- eval n c t ;; let '(v, c1) := p in
         exec_list (exec n) c1 (if truthy v then a else b)
     | SReturn e => p <- eval n c e ;; let '(v, c1) := p in Ok (FReturn v, c1)
+    | SRaise => Exn XValue
     | SPublish topic e =>
         p <- eval n c e ;; let '(v, c1) := p in
         Ok (FNormal, mkCfg (c_env c1) (c_plug c1) (c_eff c1 ++ [(topic, v)]))
     | SAwaitHook h kw =>
         p <- eval_kw (eval n) c kw ;; let '(kvs, c1) := p in
-        c2 <- dispatch P (call_method n) c1 h kvs (rev (p_plugins P)) ;;
-        Ok (FNormal, set_env c2 (c_env c1))
+        if w_hooks W then
+          c2 <- dispatch P (call_method n) c1 h kvs (rev (p_plugins P)) ;;
+          Ok (FNormal, set_env c2 (c_env c1))
+        else Ok (FNormal, c1)
     | SCall f args =>
         p <- eval_list (eval n) c args ;; let '(vs, c1) := p in
         match has_func P f with
@@ -390,13 +418,14 @@ with construct (fuel : nat) (c : cfg) (cls : string) (kvs : list (string * val))
           end
         else Exn XType
     | None =>
-        match kvs with
-        | [] =>
-            match has_method P cls "__init__" with
-            | Some _ => r <- call_method n c (VObj cls []) "__init__" [] ;; let '(_, self', c1) := r in Ok (self', c1)
-            | None => Ok (VObj cls [], c)
-            end
-        | _ => Exn XType
+        (* a plain class: __init__(self, <args by keyword>) *)
+        match has_method P cls "__init__" with
+        | Some md =>
+            if forallb (fun kv => mem (fst kv) (m_args md)) kvs then
+              args <- binds (m_args md) kvs ;;
+              r <- call_method n c (VObj cls []) "__init__" args ;; let '(_, self', c1) := r in Ok (self', c1)
+            else Exn XType
+        | None => match kvs with [] => Ok (VObj cls [], c) | _ => Exn XType end
         end
     end
   end.
